@@ -73,10 +73,10 @@ type recClient struct {
 func (c *recClient) Packet(_ context.Context, p net.Peer, packet *pdkg.GossipPacket, _ ...grpc.CallOption) (*pdkg.EmptyDKGResponse, error) {
 	c.mu.Lock()
 	defer c.mu.Unlock()
+	c.out = append(c.out, sent{to: p.Address(), packet: proto.Clone(packet).(*pdkg.GossipPacket)})
 	if c.failSend {
 		return nil, errors.New("verif: simulated send failure")
 	}
-	c.out = append(c.out, sent{to: p.Address(), packet: proto.Clone(packet).(*pdkg.GossipPacket)})
 	return &pdkg.EmptyDKGResponse{}, nil
 }
 
@@ -155,12 +155,25 @@ func newWorld(nNodes, nExtra int, grace, phase time.Duration, tmp string, hid in
 	return w, nil
 }
 
+// close shuts the processes down. Process.Close can block for ever when an echoBroadcast of a
+// node whose kyber protocol never started holds its lock on a full channel (observed; outside
+// C08/C09), so each Close gets a deadline and is abandoned after it.
 func (w *world) close() {
+	done := make(chan struct{}, len(w.nodes))
 	for _, n := range w.nodes {
-		func() {
-			defer func() { _ = recover() }()
+		go func(n *node) {
+			defer func() { _ = recover(); done <- struct{}{} }()
 			n.proc.Close()
-		}()
+		}(n)
+	}
+	deadline := time.After(2 * time.Second)
+	for range w.nodes {
+		select {
+		case <-done:
+		case <-deadline:
+			_ = os.RemoveAll(w.dir)
+			return
+		}
 	}
 	_ = os.RemoveAll(w.dir)
 }
